@@ -1,6 +1,9 @@
 package ch
 
-import "context"
+import (
+	"context"
+	"sync"
+)
 
 type (
 	ctxQueryKey  struct{}
@@ -12,16 +15,24 @@ type (
 		Rows            int
 		Bytes           int
 	}
+	// queryMetricsAcc accumulates metrics of query, it is updated by both
+	// sending and receiving goroutines.
+	queryMetricsAcc struct {
+		mu sync.Mutex
+		queryMetrics
+	}
 )
 
 func (c *Client) metricsInc(ctx context.Context, delta queryMetrics) {
 	if !c.otel {
 		return
 	}
-	v, ok := ctx.Value(ctxQueryKey{}).(*queryMetrics)
+	v, ok := ctx.Value(ctxQueryKey{}).(*queryMetricsAcc)
 	if !ok {
 		return
 	}
+	v.mu.Lock()
+	defer v.mu.Unlock()
 
 	v.Bytes += delta.Bytes
 	v.Rows += delta.Rows
